@@ -174,9 +174,16 @@ def run(c, case, observe):
                 guard("mutate", apply_real, schema, adapter, objs[i][0], mi, path, fi, kind, key, value)
                 apply_model(schema, mi, objs[i][1], path, fi, kind, key, value)
                 # a shallow copy taken earlier shares containers with this object: its model is no longer defined
-                for o in objs:
-                    if o[2] == i:
-                        o[1] = None
+                stale = {i}
+                grew = True
+                while grew:  # shallow copies of shallow copies share the same containers
+                    grew = False
+                    for j, o in enumerate(objs):
+                        if o[2] in stale and j not in stale:
+                            stale.add(j)
+                            grew = True
+                for j in stale - {i}:
+                    objs[j][1] = None
             elif op == "copy":
                 src = objs[st_["of"]]
                 if src[1] is None:
